@@ -352,6 +352,7 @@ def gen_cli(rng, name, allow_bad=True):
     elif rng.random() < 0.5:
         argv.append('--compact')
     argv.append(content)
+    argv = opts.stylize(argv, rng.choice((0, rng.getrandbits(32))))
     return {'op': 'cli', 'argv': core.enc(argv), 'name': name}
 
 
